@@ -48,41 +48,60 @@ def _profile(ops):
     return depth == 0 and count > 0, maxd, count
 
 
-def pre_limits(fn, ops, dlim, elim):
+def pre_limits(fn, ops, ns, dlim, elim):
     if len(ops) > CFG["maxlen"] or not (1 <= dlim <= CFG["maxlim"]) or not (1 <= elim <= CFG["maxlim"]):
         return False
-    ok, _, _ = _profile(ops)
-    return ok
+    ok, _, count = _profile(ops)
+    if not (ok and len(ns) == count):
+        return False
+    if CFG.get("max_ns") is not None:
+        k = 0
+        for b in ns:
+            if b:
+                k += 1
+        if k > CFG["max_ns"]:
+            return False
+    return True
 
 
-def _make_stub(ops):
+def _make_stub(ops, ns):
+    """the documented event order of ElementTree.iterparse: 'start-ns' events precede the 'start' of the element that
+    declares the namespace, the matching 'end-ns' follows its 'end'"""
     def stub(fp, events=None):
         stack = []
+        k = 0
         for op in ops:
             if op:
+                declares = ns[k]
+                k += 1
+                if declares:
+                    yield 'start-ns', ('p', 'u')
                 e = ET.Element('e')
                 if stack:
-                    stack[-1].append(e)
-                stack.append(e)
+                    stack[-1][0].append(e)
+                stack.append((e, declares))
                 yield 'start', e
             else:
-                yield 'end', stack.pop()
+                e, declares = stack.pop()
+                yield 'end', e
+                if declares:
+                    yield 'end-ns', None
     return stub
 
 
-def h_limits(ops: List[bool], dlim: int, elim: int) -> bool:
+def h_limits(ops: List[bool], ns: List[bool], dlim: int, elim: int) -> bool:
     ok, maxd, count = _profile(ops)
     old = _limits.MAX_XML_DEPTH, _limits.MAX_XML_ELEMENTS
     _limits.MAX_XML_DEPTH, _limits.MAX_XML_ELEMENTS = dlim, elim
     try:
         try:
             if CFG["lazy"]:
-                res = XMLResource(io.StringIO('x'), lazy=True, iterparse=_make_stub(ops))
+                res = XMLResource(io.StringIO('x'), lazy=True, iterparse=_make_stub(ops, ns))
                 for _ in res.iter():
                     pass
                 want = maxd > dlim
             else:
-                XMLResource(io.StringIO('x'), iterparse=_make_stub(ops))
+                XMLResource(io.StringIO('x'), iterparse=_make_stub(ops, ns))
                 want = maxd > dlim or count > elim
             raised = False
         except XMLResourceExceeded:
@@ -100,8 +119,8 @@ def explain(fn, args):
         return ""
     ops = args["ops"]
     ok, maxd, count = _profile(ops)
-    return "script %s depth=%d elements=%d MAX_XML_DEPTH=%d MAX_XML_ELEMENTS=%d lazy=%s" % (
-        ''.join('<' if o else '>' for o in ops), maxd, count, args["dlim"], args["elim"], CFG["lazy"])
+    return "script %s xmlns-per-element=%s depth=%d elements=%d MAX_XML_DEPTH=%d MAX_XML_ELEMENTS=%d lazy=%s" % (
+        ''.join('<' if o else '>' for o in ops), args.get("ns"), maxd, count, args["dlim"], args["elim"], CFG["lazy"])
 
 
 META = {
@@ -125,17 +144,18 @@ def obligations(tier, seed):
     quick = tier == "quick"
     out = []
     for lazy in (False, True):
-        for ml in ((8, 10) if quick else (8, 10, 12, 14)):
+        for ml in ((8, 10) if quick else (8, 10, 12)):
             out.append({"name": "limits/%s/len%d" % ("lazy" if lazy else "eager", ml), "fn": "h_limits", "pre": "pre_limits",
-                        "args": [["ops", "List[bool]"], ["dlim", "int"], ["elim", "int"]],
-                        "config": {"lazy": lazy, "maxlen": ml, "maxlim": 5 if quick else 7},
-                        "timeout": 200 if quick else 1500, "twin_timeout": 30,
-                        "bound": "event scripts <= %d events, limits in [1,%d]" % (ml, 5 if quick else 7)})
+                        "args": [["ops", "List[bool]"], ["ns", "List[bool]"], ["dlim", "int"], ["elim", "int"]],
+                        "config": {"lazy": lazy, "maxlen": ml, "maxlim": ml // 2 if quick else 7, "max_ns": 1 if quick else None},
+                        "timeout": 400 if quick else 2400, "twin_timeout": 30,
+                        "bound": "event scripts <= %d start/end events, %s declaring a namespace (start-ns/end-ns events), limits in [1,%d]" % (ml, "at most one element" if quick else "any subset of the elements", ml // 2 if quick else 7)})
     import random
     rnd = random.Random(seed)
     for version in ("1.0", "1.1"):
         names = builtin_names(version)
-        sel = names if not quick else sorted(set(rnd.sample(names, 7) + [n for n in ("gYear", "dateTime", "duration") if version == "1.0"]))
+        sel = names if not quick else sorted(set(rnd.sample(names, 7) + [n for n in ("gYear", "dateTime", "duration", "QName", "IDREFS") if version == "1.0"]
+                                                   + [n for n in ("QName",) if version == "1.1"]))
         for n in sel:
             k = 2 if quick else 3
             out.append({"name": "escape/%s/%s" % (version, n), "fn": "h_escape", "pre": "pre_tokens",
@@ -261,7 +281,7 @@ def replay_recursion(d, api="is_valid") -> bool:
 
 # ---------------------------------------------------------------- Part 3: exceptions escaping simple-type decoding
 
-TOKENS = ['9' * 20, '-', '1', ':', 'T', 'Z', '.', 'E', ' ', '\xa0', 'P', '0', 'INF', '+', 'x', '٣', '_', '%']
+TOKENS = ['9' * 20, '-', '1', ':', 'T', 'Z', '.', 'E', ' ', 'p:a', 'P', '0', '\xa0', 'INF', '+', 'x', '٣', '_', '%']
 _ESC = {}
 
 
